@@ -105,3 +105,32 @@ pub proof fn lemma_ffilter_none(w: Seq<Factor>, k: Keep, c: Carrier, s: Source, 
 }
 /// the set has some factor of carrier c
 pub open spec fn carrier_in(w: Seq<Factor>, c: Carrier) -> bool { exists|j: int| 0 <= j < w.len() && (#[trigger] w[j]).carrier == c }
+// ---- Factors::normalize (C07)
+pub open spec fn one3() -> RenNrenCo2 { RenNrenCo2 { ren: 1.0f32, nren: 0.0f32, co2: 0.0f32 } }
+/// the factors fixed by the method: ambient heat, solar thermal (on site and through the fictitious grid) and on-site electricity supply
+pub open spec fn forced_key(c: Carrier, s: Source, d: Dest, st: Step) -> bool {
+    d == Dest::SUMINISTRO && st == Step::A && (
+        ((c == Carrier::EAMBIENTE || c == Carrier::TERMOSOLAR) && (s == Source::INSITU || s == Source::RED))
+        || (c == Carrier::ELECTRICIDAD && s == Source::INSITU))
+}
+/// the carriers whose exported energy gets default factors, with their on-site source
+pub open spec fn exp_pair(j: int) -> (Carrier, Source) {
+    if j == 0 { (Carrier::ELECTRICIDAD, Source::INSITU) } else if j == 1 { (Carrier::EAMBIENTE, Source::INSITU) } else { (Carrier::TERMOSOLAR, Source::INSITU) }
+}
+/// an absent key gets `dflt` (if that exists), a present one keeps its value
+pub open spec fn defaulted(w1: Seq<Factor>, w: Seq<Factor>, c: Carrier, s: Source, d: Dest, st: Step, dflt: Option<RenNrenCo2>) -> bool {
+    find_spec(w, c, s, d, st) == (if find_spec(w1, c, s, d, st) is Some { find_spec(w1, c, s, d, st) } else { dflt })
+}
+/// export defaults of one carrier: step A = its on-site supply factor, step B = its grid supply factor (which must exist)
+pub open spec fn exp_defaults_ok(w1: Seq<Factor>, w: Seq<Factor>, j: int) -> bool {
+    let (c, s) = exp_pair(j);
+    let sup = find_spec(w1, c, s, Dest::SUMINISTRO, Step::A);
+    let grid = find_spec(w1, c, Source::RED, Dest::SUMINISTRO, Step::A);
+    &&& grid is Some
+    &&& (sup is Some ==> defaulted(w1, w, c, s, Dest::A_RED, Step::A, sup) && defaulted(w1, w, c, s, Dest::A_NEPB, Step::A, sup))
+    &&& defaulted(w1, w, c, s, Dest::A_RED, Step::B, grid) && defaulted(w1, w, c, s, Dest::A_NEPB, Step::B, grid)
+}
+/// nothing that exists is ever changed by the `ensure` phase
+pub open spec fn kept(w1: Seq<Factor>, w: Seq<Factor>) -> bool {
+    forall|c: Carrier, s: Source, d: Dest, st: Step| (#[trigger] find_spec(w1, c, s, d, st)) is Some ==> find_spec(w, c, s, d, st) == find_spec(w1, c, s, d, st)
+}
